@@ -13,7 +13,21 @@
     * monotonicity in the number of probes on the implementation's own answers to
       the same query (ivf_scores_monotone);
     * optionally the real flat index's answer to the same search at full probe: equal
-      score lists (ivf_fullprobe_same_scores_as_flat).
+      score lists (ivf_fullprobe_same_scores_as_flat);
+    * `lists` also carries the real flat index's stored entries and soft-delete set for
+      the same history: the IVF lists, flattened, must be the same multiset with the same
+      soft-delete set (ivf_refines_flat on the two implementations), and every stored
+      entry must sit in the list of its nearest centroid (ivf_assign_mem).
+
+  Duplicate ids.  Once an id that is still live is added again (`dup` mode), an answer
+  can carry one hit per *id* that Execute's aggregation merged from several entries;
+  that is outside the distinct-id reading of the search specification, so answers are
+  no longer judged against `probeCands` / `Flat.cands` in that case.  What is still
+  checked, after every op: outcomes and stored lists against the faithful model (which
+  never looks at ids on `Add`), list membership, the refinement of the real flat index,
+  and — `op cmp`, and searches with `k ≤ 0` at full probe — that the IVF index and the
+  real flat index return the same ids and the same score list (nothing is truncated
+  there, so ties cannot make two correct answers differ).
 -/
 import Comet.Driver.Proto
 import Comet.Driver.Flat
@@ -41,8 +55,8 @@ structure St where
   added : List Id
   version : Nat
   prev : Option Prev
-  /-- an op outside the supported fragment was skipped: nothing after it can be judged -/
-  desync : Bool := false
+  /-- an id was added while still live: answers may merge several entries of one id -/
+  dup : Bool := false
 
 def init (ps : List String) : Option St :=
   match ps with
@@ -110,7 +124,6 @@ def parseLists (toks : List String) : Option (List (List (Id × Vec)) × List Id
 def sortNat (l : List Nat) : List Nat := l.mergeSort (fun a c => decide (a ≤ c))
 
 def op (st : St) (toks : List String) : St × String :=
-  if st.desync then (st, "UNSUPPORTED after an unsupported op") else
   let m := metric st.kind
   let (pre, post) := splitOutcome toks
   match pre with
@@ -148,9 +161,10 @@ def op (st : St) (toks : List String) : St × String :=
   | ["add", id, v] =>
     match st.s, id.toNat?, parseVec v with
     | some s, some id, some v =>
-      -- re-adding an id that is still live puts two hits with one id into an answer
-      -- (merged by Execute's aggregation): C06's business, outside this stream's judge
-      if st.live.any (·.2.1 == id) then ({ st with desync := true }, "UNSUPPORTED readd-live") else
+      -- re-adding an id that is still live puts two entries with one id into the index
+      -- (merged by Execute's aggregation): from here on answers are judged against the
+      -- real flat index only (`dup` mode)
+      let st := if st.live.any (·.2.1 == id) then { st with dup := true } else st
       let readd := st.added.contains id
       let purge := s.deleted.contains id
       let (s', e) := IVF.step m infBits s (.add id v)
@@ -164,6 +178,11 @@ def op (st : St) (toks : List String) : St × String :=
           let ds := s.centroids.map (m.dist v')
           let di := (s.centroids[i]?.map (m.dist v')).getD infBits
           let ntie := (ds.filter fun d => m.sc.le d di).length
+          if st2.dup then
+            -- the id may legitimately sit in several lists; the new entry's list must be among them
+            if implLists.contains i then (st2, s!"ok dup=1 assign=1 tieassign={if ntie > 1 then 1 else 0}")
+            else (st2, s!"SPECFAIL assign id={id} stored-in-lists={ls} but its nearest centroid is {i}")
+          else
           match implLists with
           | [j] =>
             if j == i then (st2, s!"ok assign=1 tieassign={if ntie > 1 then 1 else 0} readd={if readd then 1 else 0} readdpurge={if purge then 1 else 0}") else
@@ -201,8 +220,26 @@ def op (st : St) (toks : List String) : St × String :=
       if post == [failName e] then (st', "ok") else (st', s!"DIFF flush model={failName e} impl={post}")
     | none => (st, "BADOP flush")
   | ["lists"] =>
-    match st.s, parseLists post with
+    let ivfPart := post.takeWhile (· != ";;")
+    let flatPart := (post.dropWhile (· != ";;")).drop 1
+    match st.s, parseLists ivfPart with
     | some s, some (ils, idel) =>
+      -- (a) property level: every stored entry sits in the list of its nearest centroid
+      let misplaced := (ils.zipIdx).find? fun (l, i) =>
+        l.any fun e => IVF.nearest m infBits e.2 s.centroids != i
+      -- (b) property level: flattened lists = the real flat index's entries on the same history
+      let key := fun (e : Id × Vec) => s!"{e.1}:{vecHex e.2}"
+      let sortS := fun (l : List String) => l.mergeSort (fun a c => decide (a ≤ c))
+      let flatV : Except String Bool :=
+        if flatPart.isEmpty then .ok false else
+        match parseLists ("/" :: flatPart) with
+        | some ([fl], fdel) =>
+          if sortS (ils.flatten.map key) != sortS (fl.map key) then
+            .error s!"SPECFAIL refines-flat ivf-ids={sortNat (ils.flatten.map (·.1))} flat-ids={sortNat (fl.map (·.1))}"
+          else if sortNat idel != sortNat fdel then
+            .error s!"SPECFAIL refines-flat deleted ivf={sortNat idel} flat={sortNat fdel}"
+          else .ok true
+        | _ => .error "BADOP lists flat part"
       let same := ils.length == s.lists.length &&
         (ils.zip s.lists).all fun (a, c) =>
           a.length == c.length && (a.zip c).all fun (x, y) => x.1 == y.1 && sameBits x.2 y.2
@@ -213,11 +250,33 @@ def op (st : St) (toks : List String) : St × String :=
         let l := ((s.lists[i]?).getD []).filter (fun p => !s.deleted.contains p.1)
         let sp := (st.live.filter (·.1 == i)).map (·.2)
         l.length == sp.length && (l.zip sp).all fun (x, y) => x.1 == y.1 && sameBits x.2 y.2
+      match misplaced, flatV with
+      | some (_, i), _ => (st, s!"SPECFAIL assign-membership list {i} holds an entry whose nearest centroid is another one")
+      | none, .error e => (st, e)
+      | none, .ok flatUsed =>
       if !same then (st, s!"DIFF lists model={s.lists.map (·.map (·.1))} impl={ils.map (·.map (·.1))}")
       else if !sameDel then (st, s!"DIFF deleted model={sortNat s.deleted} impl={sortNat idel}")
       else if !specOK then (st, "DIFF model-vs-spec lists")
-      else (st, s!"ok emptylist={if s.lists.any (·.isEmpty) then 1 else 0} stored={s.lists.flatten.length}")
+      else (st, s!"ok emptylist={if s.lists.any (·.isEmpty) then 1 else 0} stored={s.lists.flatten.length} flatstate={if flatUsed then 1 else 0} dup={if st.dup then 1 else 0}")
     | _, _ => (st, "BADOP lists")
+  | ["cmp", _agg, _q] =>
+    -- the IVF index (nprobes = 0, k = 0, no threshold, no restriction) against the real flat
+    -- index on the same history: same ids, same score list
+    let ivfPart := post.takeWhile (· != "|")
+    let flatPart := (post.dropWhile (· != "|")).drop 1
+    match ivfPart, flatPart with
+    | "ok" :: ih, "ok" :: fh =>
+      match ih.mapM parseHit32, fh.mapM parseHit32 with
+      | some ires, some fres =>
+        if ires.map (·.score) != fres.map (·.score) then
+          (st, s!"SPECFAIL flatref full-probe answer differs from exact search: ivf-n={ires.length} flat-n={fres.length} ivf-ids={sortNat (ires.map (·.id))} flat-ids={sortNat (fres.map (·.id))}")
+        else if sortNat (ires.map (·.id)) != sortNat (fres.map (·.id)) then
+          (st, s!"SPECFAIL flatref ids ivf={sortNat (ires.map (·.id))} flat={sortNat (fres.map (·.id))}")
+        else (st, s!"ok dupcmp=1 n={ires.length}")
+      | _, _ => (st, "BADOP cmp hits")
+    | ["err", a], ["err", c] =>
+      if a == c then (st, "ok dupcmp=1 err") else (st, s!"SPECFAIL flatref ivf=err:{a} flat=err:{c}")
+    | _, _ => (st, s!"SPECFAIL flatref ivf={ivfPart.head?} flat={flatPart.head?}")
   | ["search", p, k, thr, filt, agg, q] =>
     match st.s, parseInt k, parseU32 thr, parseIds filt, FlatStream.parseAgg agg, parseVec q with
     | some s, some k, some thr, some filt, some agg, some q =>
@@ -239,6 +298,21 @@ def op (st : St) (toks : List String) : St × String :=
       | "ok" :: hits, .ok mres =>
         match hits.mapM parseHit32, m.pre q with
         | some res, some q' =>
+          if st.dup then
+            -- duplicate ids: no judgement against the specification; at full probe with
+            -- nothing truncated the real flat index must give the same score list
+            match flatPart with
+            | "ok" :: fh =>
+              match fh.mapM parseHit32 with
+              | none => (st, "BADOP flat hits")
+              | some fres =>
+                if k ≤ 0 then
+                  if fres.map (·.score) == res.map (·.score) then (st, "ok dup=1 dupflat=1")
+                  else (st, s!"SPECFAIL flatref ivf-n={res.length} flat-n={fres.length} (duplicate ids, k<=0, full probe)")
+                else (st, "ok dup=1")
+            | [] => (st, "ok dup=1")
+            | _ => (st, "SPECFAIL flatref flat index failed where IVF succeeded")
+          else
           let sc := m.sc
           let tr := fun (h : Hit UInt32) => (⟨h.id, reduceVec sc agg [h.score]⟩ : Hit UInt32)
           let np := IVF.clampProbes pI s.nlist
